@@ -22,7 +22,9 @@ package kcp
 
 import (
 	"bytes"
+	"crypto/aes"
 	"crypto/cipher"
+	"crypto/des"
 	"encoding/hex"
 	"encoding/json"
 	"fmt"
@@ -32,7 +34,13 @@ import (
 	"testing"
 	"unsafe"
 
+	"github.com/tjfoc/gmsm/sm4"
+	"golang.org/x/crypto/blowfish"
+	"golang.org/x/crypto/cast5"
 	"golang.org/x/crypto/salsa20"
+	"golang.org/x/crypto/tea"
+	"golang.org/x/crypto/twofish"
+	"golang.org/x/crypto/xtea"
 )
 
 const cfbMaxLen = 1500 // the property's bound (= mtuLimit, asserted below)
@@ -413,6 +421,28 @@ func cfbStreamLog(t *testing.T, rep *vreport, lg *vlog, rng *vrng, round int) {
 
 // ---- (b) monitors on every real BlockCrypt
 
+func cfbRefBlock(name string, key []byte) (cipher.Block, error) {
+	switch name {
+	case "aes-128", "aes-192", "aes-256":
+		return aes.NewCipher(key)
+	case "sm4":
+		return sm4.NewCipher(key)
+	case "twofish":
+		return twofish.NewCipher(key)
+	case "3des":
+		return des.NewTripleDESCipher(key)
+	case "cast5":
+		return cast5.NewCipher(key)
+	case "blowfish":
+		return blowfish.NewCipher(key)
+	case "tea":
+		return tea.NewCipherWithRounds(key, 16)
+	case "xtea":
+		return xtea.NewCipher(key)
+	}
+	return nil, fmt.Errorf("no reference for %s", name)
+}
+
 func cfbRealCipher(t *testing.T, rep *vreport, rng *vrng, c cfbCipher, key []byte) {
 	if key == nil {
 		key = rng.bytes(c.keyLen)
@@ -423,8 +453,15 @@ func cfbRealCipher(t *testing.T, rep *vreport, rng *vrng, c cfbCipher, key []byt
 	}
 	var blk cipher.Block
 	bs := 0
-	if b, ok := bc.(*blockCrypt); ok {
-		blk = b.block // the library's own block cipher object, for the crypto/cipher reference
+	if _, ok := bc.(*blockCrypt); ok {
+		// the reference block cipher is built HERE, from the published parameters of each option (TEA is
+		// the 16-round variant old peers speak), not taken from the library's object: "old peers and other
+		// implementations interoperate" is about the block function too
+		ref, err := cfbRefBlock(c.name, key)
+		if err != nil {
+			t.Fatalf("%s: reference block cipher: %v", c.name, err)
+		}
+		blk = ref
 		bs = blk.BlockSize()
 	}
 	pool := rng.bytes(4096)
